@@ -132,6 +132,14 @@ def run(tier, seed):
         mdef = "(define 'm-abort (macro (& xs) (abort)) \"\") (define 'm-abort-inner (macro () (eval (trap (abort) 'swallowed))) \"\")"
         exact.append((f"{mdef} (eval (trap (eval (trap {runner} 'inner)) 'outer))", "abort"))
         exact.append((f"{mdef} (try {runner} (catch-all (lambda (e) 'caught)))", "abort"))
+    # traps whose handler is the empty list (a literal (), make-trap with nil, try without catchers, a macro-built form)
+    for prog in ["(block (try (abort)) 'survived)", "(block (eval (trap (abort) ())) 'survived)", "(block (eval (make-trap '(abort) nil)) 'survived)",
+                 "(block (eval (make-trap '(abort) ())) 'survived)", "(block (eval (eval (list 'trap '(abort) nil))) 'survived)", "(try (try (try (abort))))",
+                 "(eval (trap (try (abort)) 'outer))", "(try (eval (trap (abort) 'inner)))", "(try (map (lambda (x) (if (= x 2) (abort) x)) '(1 2 3)))"]:
+        exact.append((prog, "abort"))
+    for prog, shown in [("(print (list (try (signal 'x)) 'went-on))", "(() went-on)"), ("(print (list (eval (trap (car 5) ())) 'went-on))", "(() went-on)"),
+                        ("(print (list (eval (make-trap '(signal 1) nil)) 'went-on))", "(() went-on)")]:
+        exact.append((prog, shown))
     sets = [ProgramSet("nests", progs), ProgramSet("errors", errprogs), ProgramSet("dictated", dictated), ProgramSet("macro_bodies", [p for p, _ in exact])]
     run_sets(rep, sets)
     for (prog, want), r, a in zip(exact, sets[3].parsed, sets[3].answers):
